@@ -61,14 +61,13 @@ template <class M> struct TrueHeights {
     // routing child c whose inner grandchild is 1 taller than the outer one, and the double rotation is refused because it would
     // leave the routing node c with a missing child (rebalance_to_right_locked / rebalance_to_left_locked: "(hLL == 0 || hLRL == 0)
     // && !pLeft->is_valued()"); the fall-back rebalance of c finds c itself balanced and stops, so n is never repaired.
-    bool blocked_by_routing_child(N* n, int l, int r) {
-        if (l - r < 2 && r - l < 2) return false;
-        int dir = l > r ? -1 : 1; N* c = M::child(n, dir, atomics::memory_order_relaxed);
-        if (!c) return false;
-        // c is a routing node now, or was one at some time (its key was erased and possibly inserted again: re-valuing a routing node repairs nothing)
-        if (c->is_valued(atomics::memory_order_relaxed) && !erased.count((long)c->m_key)) return false;
-        return true;   // later insertions below c can change which grandchild is taller without repairing n, so the shape below c is not constrained
-    }
+    // Known finding (DESIGN.md 9.2): once a removal has turned a node with two children into a routing node, a double rotation that would
+    // leave that routing node with a missing child is refused ("(hLL == 0 || hLRL == 0) && !pLeft->is_valued()"), the fall-back finds the
+    // routing child balanced and stops, and the parent stays 2 too tall.  Nothing comes back to it: later insertions can grow the
+    // imbalance, make ancestors unbalanced as well (their stored heights are stale), re-value the routing node or rotate it away.
+    // The quiescent shape therefore says nothing; what can be said soundly is that a history without any successful removal never
+    // creates a routing node, so there every node must be strictly balanced.
+    bool blocked_by_routing_child(N*, int, int) { return !erased.empty(); }
     std::set<long> erased; bool all_erased = false;
     int height(N* n, bool& balanced, bool& ordered, long lo, long hi) {
         if (!n) return 0;
